@@ -150,7 +150,8 @@ def handle (d : DState) (j : Json) : DState × Json :=
     let runners : JobSem.Runners :=
       if getStr r "kind" == "job" then JobSem.Runners.job (JobSem.St.init (getBool r "recursive") (getNat r "pipe"))
       else JobSem.Runners.bounded { value := getNat r "n", waiters := [] } (getNat r "n")
-    let P : Project := { steps, run := runFn, junk := fun _ => 0 }
+    -- the result of a script depends on its workspace (variant), not on which step object ran it
+    let P : Project := { steps, run := fun s ins => runFn ((steps.getD s default).path) ins, junk := fun _ => 0 }
     let st := Sched.init cfg runners
     ({ d with P, cfg, st := some st, st0 := some st, n := getNat j "n", sem := none }, Json.mkObj [("ok", Json.bool true), ("s", snapshot st)])
   | "sem-init" =>
